@@ -260,6 +260,20 @@ def configs() -> list:
         cs.append(C(f"{kn}/library_composite_frames/direct_component_of_is_tuple_of_p",
                     [("m", HDR + f"def cfg():\n    {dfn(k, 'P', base='is_int_p')}\n    for x in XS:\n        @CALL T ;; is_tuple_of_p(is_str_p, P) ;; ('n', x)\n"
                                  f"        @CALL P ;; P ;; x\ncfg()\n")], {"T": "lambda t: rec(is_int)(t[1])", "P": I_}))
+    # HISTORIES (search only): ONE function that defines the recursive predicate, called twice with different bases (anything remembered
+    # per code location gives the second run the first run's meaning); an evaluation that raised half-way (a function atom dividing by an
+    # element) followed, after the caller repaired the datum, by the same evaluation
+    for k in "TRL":
+        kn = KIND_NAME[k]
+        cs.append(C(f"{kn}/history/one_defining_function_called_with_two_bases",
+                    [("m", HDR + f"def check(base, v):\n    P = base | is_list_of_p({REF[k]('P')})\n    return P(v)\n"
+                                 "for x in XS:\n    @CALL PS ;; (lambda v: check(is_str_p, v)) ;; x\n    @CALL PI ;; (lambda v: check(is_int_p, v)) ;; x\n")],
+                    {"PS": S, "PI": I}))
+        cs.append(C(f"{kn}/history/evaluation_that_raised_then_repeated_after_the_datum_was_repaired",
+                    [("m", HDR + f"def cfg():\n    P = (is_int_p & fn_p(lambda v: 100 % v == 0)) | is_list_of_p({REF[k]('P')})\n    batch = [10, 0]\n    doc = [5, [20, batch], [4]]\n"
+                                 "    try:\n        P(doc)\n    except ZeroDivisionError:\n        pass\n    batch[1] = 25\n    @CALL P ;; P ;; doc\n    @CALL P ;; P ;; [batch]\n"
+                                 "    for x in XS:\n        @CALL P ;; P ;; x\ncfg()\n")],
+                    {"P": "rec(lambda v: isinstance(v, int) and not isinstance(v, bool) and v != 0 and 100 % v == 0)"}))
     # the library's own tests' shapes
     cs.append(C("this_p/or_inside_list", [("m", HDR + "def cfg():\n    P = is_str_p | is_list_of_p(this_p | is_int_p)\n    for x in XS:\n        @CALL P ;; P ;; x\ncfg()\n")], {"P": "rec(is_str, is_int)"}))
     cs.append(C("this_p/used_inside_larger_predicate", [("m", HDR + "def cfg():\n    P = is_str_p | is_list_of_p(this_p)\n    Q = P | is_int_p\n    for x in XS:\n        @CALL Q ;; Q ;; x\ncfg()\n")], {"Q": "lambda x: rec(is_str)(x) or is_int(x)"}))
@@ -801,7 +815,7 @@ def record_configs(cfgs, xs_of):
 
 def correspondence(payload):
     mism = fingerprint_mismatches()
-    cfgs = [c for c in configs() if "analysed_before_first_call" not in c["name"] and "beyond_small_bounds" not in c["name"] and "library_composite_frames" not in c["name"]] + JSON_CONFIGS   # (those run library functions whose frames the model does not have: search only)
+    cfgs = [c for c in configs() if "analysed_before_first_call" not in c["name"] and "beyond_small_bounds" not in c["name"] and "library_composite_frames" not in c["name"] and "/history/" not in c["name"]] + JSON_CONFIGS   # (those run library functions whose frames the model does not have: search only)
     rng = rng_of(payload)
     more = payload.get("tier") == "thorough" or payload.get("deep")
     xs_model = XS_MODEL + [random_nested(rng, ["a", "b", 1, None], 3, 3) for _ in range(30 if more else 4)]
@@ -902,6 +916,8 @@ def search(payload):
     for ci, cfg in enumerate(cfgs):
         xs = list(full if (deep or cfg["name"].endswith("/alone") or "other_recursive" in cfg["name"]) else base)
         xs += [random_nested(rng, leaves + [None, 2.5], 3, 3) for _ in range(1500 if deep else 150)]
+        if cfg["name"].endswith("evaluation_that_raised_then_repeated_after_the_datum_was_repaired"):
+            xs = [[5], [10, [20]], [3], [4, [25, [50]]], 5, 3, [], [[2], [7]]]
         if "library_composite_frames" in cfg["name"]:
             xs = [[1, [2]], [1], [[1]], 1, ["a"], [1, ["a"]], [], [[], [3, [4]]]]        # NOT shuffled below would be better: the first call decides what is cached
         if "beyond_small_bounds" in cfg["name"]:
